@@ -36,7 +36,8 @@ def _limits():
 def main():
     pid, cin, cout = sys.argv[1:4]
     signal = _limits()
-    per_case = float(os.environ.get("VERIF_CASE_TIMEOUT", "90"))
+    per_case = float(os.environ.get("VERIF_CASE_TIMEOUT", "60"))
+    timeouts = 0
     import dyce
     repo = os.environ.get("DYCE_REPO", "/repo")
     assert os.path.realpath(dyce.__file__).startswith(os.path.realpath(repo) + os.sep), dyce.__file__
@@ -45,6 +46,13 @@ def main():
     cases = json.load(open(cin))
     out = []
     for c in cases:
+        if timeouts >= 4:
+            # the library hangs on input after input: the remaining cases get a bounded look each ...
+            per_case = min(per_case, 3.0)
+        if timeouts >= 16:
+            # ... and after many more of those, none (the run is reported with the inputs that timed out)
+            out.append({"exc": "Timeout", "msg": "not run: the implementation timed out on 16 earlier cases"})
+            continue
         try:
             signal.setitimer(signal.ITIMER_REAL, per_case)
             try:
@@ -53,6 +61,7 @@ def main():
                 signal.setitimer(signal.ITIMER_REAL, 0)
             out.append(res)
         except CaseTimeout:
+            timeouts += 1
             out.append({"exc": "Timeout", "msg": f"no answer within {per_case} s"})
         except BaseException as e:  # noqa
             name = type(e).__name__
